@@ -67,6 +67,7 @@ class Interp:
         self._loop_heads = {}
         self._thresholds = {}
         self._liveness = {}
+        self.frame_bodies = {}
         self.quiet_fns = set(self.opt.get("quiet_fns", ()))   # obligations in these fns are not recorded
 
     # ------------------------------------------------------------------ hooks
@@ -306,9 +307,26 @@ class Interp:
             loc = None   # summary element: no identity
         return v, loc
 
+    def is_tracked(self, loc):
+        """user-declared `mut` integer locals keep their identity in constraints even while they are constant,
+        so that relations established early in a loop (i <= len while i == 0) survive the first joins"""
+        if loc is None or loc[1] != () or loc[0][0] != "L":
+            return False
+        body = self.frame_bodies.get(loc[0][1])
+        if body is None:
+            return False
+        l = body.locals[loc[0][2]]
+        return bool(l.get("mut")) and l.get("name") is not None and loc[0][2] > body.arg_count
+
     def lin_of(self, st, v, loc):
         if isinstance(v, Int):
             if v.is_const():
+                if v.bits > 8 and self.is_tracked(loc):
+                    return LinForm.var(loc)
+                if loc is not None and st.defs:
+                    d = st.defs.get(loc)
+                    if d is not None and d[0] == "lin":
+                        return d[1]
                 return LinForm.constant(v.lo)
             if loc is not None:
                 return LinForm.var(loc)
@@ -338,7 +356,12 @@ class Interp:
         if isinstance(val, Int):
             if lin is not None and not lin.is_const() and not val.is_const():
                 if loc not in lin.terms:
-                    st.cons.add_eq(LinForm.var(loc) - lin)
+                    eqf = LinForm.var(loc) - lin
+                    st.cons.add_eq(eqf)
+                    st.propagate(seed=eqf, eq=True, rounds=2)
+            elif lin is not None and not lin.is_const() and val.is_const() and loc not in lin.terms and "elem" not in loc[1]:
+                # a constant copy of a tracked variable: remember whose value it is
+                st.defs[loc] = ("lin", lin)
         elif src_loc is not None and src_loc != loc:
             scell, spath = src_loc
             for p, leaf in int_leaves(val):
@@ -636,14 +659,15 @@ class Interp:
         if not truth:
             op = neg[op]
         diff = la - lb
+        force = any(self.is_tracked(v) for v in diff.terms)
         if op == "Lt":
-            st.add_le(diff + 1)
+            st.add_le(diff + 1, force)
         elif op == "Le":
-            st.add_le(diff)
+            st.add_le(diff, force)
         elif op == "Gt":
-            st.add_le((-diff) + 1)
+            st.add_le((-diff) + 1, force)
         elif op == "Ge":
-            st.add_le(-diff)
+            st.add_le(-diff, force)
         elif op == "Eq":
             st.add_eq(diff)
         elif op == "Ne":
@@ -667,8 +691,13 @@ class Interp:
                 lo, hi = st.lin_bounds(diff)
                 if lo == 0 and hi == 0:
                     raise Infeasible()
-                if st.entails_le(diff) and st.entails_le(-diff):
+                le, ge = st.entails_le(diff), st.entails_le(-diff)
+                if le and ge:
                     raise Infeasible()
+                if le:
+                    st.add_le(diff + 1)       # a <= b and a != b  =>  a < b
+                elif ge:
+                    st.add_le((-diff) + 1)
 
     def assume_var(self, st, var, value, equal=True):
         """refine: scalar at `var` == value (or != value), following definitions"""
